@@ -322,6 +322,12 @@ def gen_class(rng, i, ncls, classes, names_used, allow_ph, uni, shared):
                 c["base2"] = b2
     c["js"] = rng.choice(["/*js%d*/" % i] * 4 + [None, None, "", "  \n", "/*same*/"])
     c["css"] = rng.choice([".c%d{}" % i] * 3 + [None, None, None, "", " ", ".same{}"])
+    if c["base"] is not None:
+        # inherit the inline members more often (with two bases: from whichever base Python's MRO finds first)
+        if rng.random() < (0.6 if c["base2"] is not None else 0.3):
+            c["js"] = None
+        if rng.random() < (0.6 if c["base2"] is not None else 0.3):
+            c["css"] = None
     gen_media(rng, c, shared)
     r = rng.random()
     if r < 0.12:
@@ -332,6 +338,25 @@ def gen_class(rng, i, ncls, classes, names_used, allow_ph, uni, shared):
     c["cssdata"] = rng.random() < 0.2
     c["root"] = rng.choice(["div", "div", "multi", "text", "bare"])
     return c
+
+
+def used_classes(nodes):
+    out = set()
+    for nd in nodes:
+        if nd[0] in ("c", "dyn"):
+            out.add(nd[1])
+            out |= used_classes(nd[2] or [])
+        elif nd[0] in ("cf", "dynf"):
+            out.add(nd[1])
+            for f in nd[2]:
+                out |= used_classes(f[1])
+        elif nd[0] in ("for", "if", "el"):
+            out |= used_classes(nd[2])
+        elif nd[0] == "slot":
+            out |= used_classes(nd[1])
+        elif nd[0] == "nslot":
+            out |= used_classes(nd[2])
+    return out
 
 
 def class_slots(c):
@@ -348,7 +373,7 @@ def class_slots(c):
                 walk(nd[2])
             elif nd[0] in ("for", "if", "el"):
                 walk(nd[2])
-    walk(c.get("tpl", []))
+    walk(c.get("tpl") or [])
     return out
 
 
@@ -442,6 +467,16 @@ def gen_prog(rng, uni=None, ph_in_classes=None):
         add_slots(rng, tpl, usable, decl, [2])
         classes[i]["tpl"] = tpl
         decl[i] = class_slots(classes[i])
+    # a class with bases may inherit its TEMPLATE too (tpl None): the donor is found by Python's MRO on plain stand-in classes;
+    # allowed only when the donor's template uses classes with a higher index only (no recursion)
+    plain = []
+    for i, c in enumerate(classes):
+        plain.append(type("P%d" % i, tuple(plain[b] for b in (c.get("base"), c.get("base2")) if b is not None) or (object,), {}))
+    for i, c in enumerate(classes):
+        if c["base"] is not None and rng.random() < 0.3:
+            donor = next((plain.index(k) for k in type.mro(plain[i])[1:] if k in plain and classes[plain.index(k)]["tpl"] is not None), None)
+            if donor is not None and all(j > i for j in used_classes(classes[donor]["tpl"])):
+                c["tpl"] = None
     # the page may leave classes unused (registered, never rendered)
     usable = list(range(ncls))
     if ncls > 1 and rng.random() < 0.4:
@@ -503,7 +538,7 @@ def nodes_src(nodes):
 
 def class_tpl(i, c):
     body = nodes_src(c["tpl"])
-    tag = "[[%d]]" % i
+    tag = "[[{{ cid }}]]"      # get_context_data of every generated class returns its own index
     if c["root"] == "div":
         return "<div>%s%s</div>" % (tag, body)
     if c["root"] == "multi":
@@ -548,7 +583,7 @@ def has_node(prog, kinds):
             if nd[0] in ("cf", "dynf") and any(walk(f[1]) for f in nd[2]):
                 return True
         return False
-    return walk(prog["page"]) or any(walk(c["tpl"]) for c in prog["classes"])
+    return walk(prog["page"]) or any(walk(c["tpl"] or []) for c in prog["classes"])
 
 
 def features(prog):
@@ -567,6 +602,10 @@ def features(prog):
         f.append("chain>=3")
     if any(c.get("base2") is not None for c in cs):
         f.append("two-bases")
+    if any(c.get("base2") is not None and (c["js"] is None or c["css"] is None) for c in cs):
+        f.append("two-bases-inherited-inline")
+    if any(c.get("tpl") is None for c in cs):
+        f.append("inherited-template")
     if any(isinstance(c.get("mcss"), dict) and len({x for v in c["mcss"].values() for x in v}) < sum(len(v) for v in c["mcss"].values()) for c in cs):
         f.append("css-file-under-2-media")
     if any(isinstance(x, list) for c in cs for x in list(c["mjs"]) + (c["mcss"] if isinstance(c["mcss"], list) else [])):
@@ -600,7 +639,7 @@ def _has_for0(prog):
             if nd[0] in ("cf", "dynf") and any(walk(f[1]) for f in nd[2]):
                 return True
         return False
-    return walk(prog["page"]) or any(walk(c["tpl"]) for c in prog["classes"])
+    return walk(prog["page"]) or any(walk(c["tpl"] or []) for c in prog["classes"])
 
 
 CTX = {"r0": [], "r1": [0], "r2": [0, 1], "r3": [0, 1, 2], "yes": True, "no": False}
@@ -619,7 +658,9 @@ class Built:
         self.classes = []
         for i, c in enumerate(prog["classes"]):
             bases = tuple(self.classes[b] for b in (c.get("base"), c.get("base2")) if b is not None) or (Component,)
-            attrs = {"template": class_tpl(i, c), "__module__": mod}
+            attrs = {"__module__": mod, "get_context_data": (lambda k: lambda self, *a, **kw: {"cid": k})(i)}
+            if c.get("tpl") is not None:
+                attrs["template"] = class_tpl(i, c)
             if c["js"] is not None or c.get("base") is None:
                 attrs["js"] = c["js"]
             if c["css"] is not None or c.get("base") is None:
@@ -659,6 +700,16 @@ class Built:
                 pass
         import sys
         sys.modules.pop("verif_c04_p%d" % self.n, None)
+
+    # inline js / css of a class by PYTHON'S OWN attribute rule: the value set by the first class of type.mro() that sets
+    # one (None = not set), computed from the generated program - never read from Component.js / Component.css
+    def inline(self, cls, kind):
+        for k in type.mro(cls):
+            if k in self.classes:
+                v = self.prog["classes"][self.classes.index(k)][kind]
+                if v is not None:
+                    return v.strip() if nonempty_str(v) else None
+        return None
 
     def clsof(self, x):
         if x == "P":
